@@ -202,6 +202,46 @@ theorem C01_entry_targets_and_ancestors (env : Env σ) (d : Doc) (s : Sess σ) (
          fun x hx a ha => (C01_microstep_configuration env d s ts a).2 (Or.inr (h.2 x hx a ha))⟩
 #assert_axioms C01_entry_targets_and_ancestors
 
+/-- the part of `legalB` that is proved as an invariant of whole runs: the root is active, no state
+    is listed twice, no member is a history pseudo-state -/
+def legalCoreB (d : Doc) (cfg : List Nat) : Bool :=
+  cfg.contains d.root && nodupB cfg && cfg.all (fun s => (getState d s).histType == 0)
+
+theorem nodupB_iff {l : List Nat} : nodupB l = true ↔ l.Nodup := by
+  induction l with
+  | nil => simp [nodupB]
+  | cons a l ih => simp [nodupB, ih]
+#assert_axioms nodupB_iff
+
+/-- `legalCoreB` is a sub-conjunction of `legalB` (so the oracle's `legalB` implies it) … -/
+theorem legalCoreB_of_legalB (d : Doc) (cfg : List Nat) (h : legalB d cfg = true) : legalCoreB d cfg = true := by
+  unfold legalB at h
+  unfold legalCoreB
+  simp only [Bool.and_eq_true, List.all_eq_true] at h ⊢
+  refine ⟨⟨h.1.1, h.1.2⟩, ?_⟩
+  intro x hx
+  have := h.2 x hx
+  unfold legalAt at this
+  simp only [Bool.and_eq_true] at this
+  exact this.1.2
+#assert_axioms legalCoreB_of_legalB
+
+/-- … and it holds in every reachable session (hypotheses as in `C01_root_active_conformant`) -/
+theorem C01_legal_core (env : Env σ) (d : Doc) (hc : conformantB d = true)
+    (hk : (getState d d.root).kids ≠ [])
+    (hnh : ∀ t0 ts', (getTrans d (getState d d.root).initial).target = t0 :: ts' → isHistoryState d t0 = false)
+    (s : Sess σ) (hr : Reach env d s) : legalCoreB d s.cfg = true := by
+  have h1 := C01_root_active_conformant env d hc hk hnh s hr
+  have h2 := C01_no_duplicates_no_history env d hc s hr
+  unfold legalCoreB
+  simp only [Bool.and_eq_true, List.all_eq_true]
+  refine ⟨⟨by simpa using h1, nodupB_iff.2 h2.1⟩, ?_⟩
+  intro x hx
+  have := h2.2 x hx
+  unfold isHistoryState at this
+  simpa using this
+#assert_axioms C01_legal_core
+
 /-- **no state is exited while a state below it is still active**: in the order in which
     `exitStates` processes the exit set (reverse document order, `C02_exit_order`), every exited
     descendant of a state stands before that state — together with `C01_exit_descendant_closed`:
@@ -273,6 +313,7 @@ example : legalB exDoc1 [1, 2, 3, 4] = false := by decide      -- a parallel chi
 example : (computeEntrySet exDoc1 [] [20]).toEnter = [2, 3, 4, 5, 6, 1] := by decide
 -- C01_entry_targets_and_ancestors on exDoc1: transition 10 (4 → 7) has effective target 7, domain 1 (root): nothing between
 example : effTargets exDoc1 [] (getTrans exDoc1 10) = [7] ∧ transDomain exDoc1 [] (getTrans exDoc1 10) = 1 := by decide
+example : legalCoreB exDoc1 [1, 2, 3, 4, 5, 6] = true ∧ legalCoreB exDoc1 [2, 3] = false := by decide
 -- hypotheses of C01_root_active / C01_root_active_conformant for exDoc1
 example : (getState exDoc1 exDoc1.root).kids ≠ [] ∧ (getTrans exDoc1 (getState exDoc1 exDoc1.root).initial).target = [2] ∧
     isHistoryState exDoc1 2 = false := by decide
